@@ -75,6 +75,9 @@ def configs(tier, seed):
                   {"label": "d2", "mc": ["m1"], "maxis": A3, "gaxis": [2.0, 3.0, 4.0], "scale": "sc2"},
                   {"label": "d3", "mc": ["m1"], "maxis": A3, "gaxis": [1.0, 3.0, 4.0, 5.0], "scale": "sc3"}],
         groups={"default": {"link_clp": True}}, shared_clp="scaled")
+    # builtin spectral model on a scaled (unit-converted) axis: simulate, then evaluate the objective repeatedly on the same inputs
+    out.append({"name": "builtin-spectral-scaled-axis", "kind": "builtin-spectral",
+                "c07": {"name": "spectral-axis-scaled", "kind": "axis", "axis": "scaled"}})
     if tier == "thorough":
         from harness import pipeline as pl
 
@@ -136,6 +139,12 @@ def run_config(cfg, rec):
     from symx.env import SymNP
     from glotaran.optimization.optimizer import Optimizer
 
+    if cfg.get("kind") == "builtin-spectral":
+        from harness import c07_basis as c07
+
+        # the builtin spectral megacomplex on terms: documented axis, caller's axis array untouched, repeated evaluation equal (C07's
+        # harness); the simulate -> objective round trip on the real model is the float part below
+        return c07.run_config(cfg["c07"], rec)
     rec.encodes(sim.simulate, sim.simulate_from_clp, sim.simulate_full_model)
     rec.assume_note("dataset scales non-zero; linked datasets share generating clps at equal global coordinates and carry no scale")
     with Patcher() as p:
@@ -261,12 +270,61 @@ def float_case(cfg, env):
 
 
 def concrete(cfg, env):
+    if cfg.get("kind") == "builtin-spectral":
+        return {"ok": True}
     pen, calls, _, _, _ = float_case(cfg, c02.DefaultEnv(env))
     return {"y0": [float(x) for x in calls[0]["data"].flat]}
 
 
+def _builtin_spectral_roundtrip():
+    """Real model: spectral shapes on a scaled axis, data simulated from given clps, objective evaluated three times."""
+    import xarray as xr
+
+    from glotaran.builtin.megacomplexes.spectral import SpectralMegacomplex
+    from glotaran.model import Model
+    from glotaran.optimization.optimizer import Optimizer
+    from glotaran.parameter import Parameters
+    from glotaran.project import Scheme
+    from glotaran.simulation import simulate
+
+    SpectralModel = Model.create_class_from_megacomplexes([SpectralMegacomplex])
+    model = SpectralModel(**{
+        "megacomplex": {"mc1": {"type": "spectral", "shape": {"s1": "sh1", "s2": "sh2"}}},
+        "shape": {"sh1": {"type": "gaussian", "amplitude": "a1", "location": "l1", "width": "w1"},
+                  "sh2": {"type": "gaussian", "amplitude": "a2", "location": "l2", "width": "w2"}},
+        "dataset": {"dataset1": {"megacomplex": ["mc1"], "spectral_axis_scale": 2.5, "spectral_axis_inverted": False}},
+    })
+    params = Parameters.from_list([["a1", 1.0, {"vary": False}], ["l1", 1250.0], ["w1", 120.0], ["a2", 1.0, {"vary": False}],
+                                   ["l2", 1600.0], ["w2", 200.0]])
+    spectral = np.linspace(400.0, 760.0, 37)
+    time = np.array([0.0, 1.0, 2.0, 3.5])
+    spectral_in = spectral.copy()
+    clp = xr.DataArray([[1.0, 0.2], [0.7, 0.5], [0.4, 0.8], [0.1, 1.1]], coords=[("time", time), ("clp_label", ["s1", "s2"])])
+    data = simulate(model, "dataset1", params, {"spectral": spectral_in, "time": time}, clp=clp)
+    if not np.array_equal(spectral_in, spectral) or not np.allclose(data.coords["spectral"].values, spectral):
+        return True, (f"simulate() on a scaled spectral axis changed the coordinates: caller's array {spectral_in[:3].tolist()}..., dataset "
+                      f"coordinate {data.coords['spectral'].values[:3].tolist()}..., given {spectral[:3].tolist()}...")
+    scheme = Scheme(model=model, parameters=params, data={"dataset1": data}, maximum_number_function_evaluations=1)
+    opt = Optimizer(scheme, verbose=False)
+    pens = [np.asarray(opt.calculate_penalty(), dtype=float).copy() for _ in range(3)]
+    worst = max(float(np.max(np.abs(p_))) for p_ in pens)
+    if not worst <= 1e-9:
+        return True, (f"builtin spectral model on a scaled axis: data simulated without noise are not reproduced at the generating parameters "
+                      f"on repeated evaluation (max |penalty| per evaluation {[float(np.max(np.abs(p_))) for p_ in pens]})")
+    return False, "ok"
+
+
 def replay(data):
     cfg = data["cfg"]
+    if cfg.get("kind") == "builtin-spectral":
+        from harness import c07_basis as c07
+
+        with warnings.catch_warnings():
+            warnings.simplefilter("ignore")
+            v, d = c07.replay({"cfg": cfg["c07"], "env": {}})
+            if not v:
+                v, d = _builtin_spectral_roundtrip()
+        return v, d
     for env in (c02.salted("r1"), c02.salted("r2")):
         try:
             pen, calls, clps, res, scheme = float_case(cfg, env)
